@@ -3,6 +3,7 @@ package props
 import (
 	"fmt"
 	"strings"
+	"sync"
 	"time"
 
 	"github.com/gopcua/opcua/ua"
@@ -110,7 +111,79 @@ func c32History(c *fw.Ctx, run int64) {
 		return v, err
 	}
 	steps := c.Pick(60, 250)
+	// a subscription or item that nobody deleted stays: the model's live objects exist on the server
+	vanished := func(step int) bool {
+		ss, its := srvSubs(), srvItems()
+		for id, o := range subOwner {
+			if !ss[id] {
+				op := c32Op{Step: step, Session: o, Op: "invariant", IDs: []uint32{id}, History: hist}
+				c.Violation("c32:subscription-vanished", fmt.Sprintf("subscription %d of session %d is gone although no request deleted it", id, o), op)
+				return true
+			}
+		}
+		for id, o := range itemOwner {
+			if _, there := its[id]; !there {
+				op := c32Op{Step: step, Session: o, Op: "invariant", IDs: []uint32{id}, History: hist}
+				c.Violation("c32:item-vanished", fmt.Sprintf("monitored item %d of session %d is gone although no request deleted it", id, o), op)
+				return true
+			}
+		}
+		return false
+	}
+	defer func() {
+		time.Sleep(150 * time.Millisecond)
+		if vanished(steps) || unanswered != "" {
+			return
+		}
+		// concurrent churn: every session creates and deletes subscriptions of its own at the same time as the
+		// others; an id handed out must not be live elsewhere, and what a session created it can delete
+		var mu sync.Mutex
+		live := map[uint32]int{}
+		var wg sync.WaitGroup
+		for si := range ss {
+			wg.Add(1)
+			go func(si int) {
+				defer wg.Done()
+				s := ss[si]
+				for k := 0; k < 25; k++ {
+					v, err := s.ch.Request(&ua.CreateSubscriptionRequest{RequestedPublishingInterval: 20, RequestedLifetimeCount: 100000, RequestedMaxKeepAliveCount: 1000, PublishingEnabled: true}, s.tok, 3*time.Second)
+					resp, ok := v.(*ua.CreateSubscriptionResponse)
+					if err != nil || !ok || resp.ResponseHeader.ServiceResult != ua.StatusOK {
+						return
+					}
+					id := resp.SubscriptionID
+					mu.Lock()
+					o, dup := live[id]
+					live[id] = si
+					mu.Unlock()
+					if dup {
+						c.Violation("c32:subscription-id-reused-while-live", fmt.Sprintf("concurrent churn: CreateSubscription returned id %d to session %d while session %d still holds it", id, si, o), c32Op{Step: steps, Session: si, Op: "churn", IDs: []uint32{id}})
+						return
+					}
+					// remove the id from the live set before the delete is sent: from then on the server may reuse it
+					mu.Lock()
+					delete(live, id)
+					mu.Unlock()
+					v, err = s.ch.Request(&ua.DeleteSubscriptionsRequest{SubscriptionIDs: []uint32{id}}, s.tok, 3*time.Second)
+					dr, ok := v.(*ua.DeleteSubscriptionsResponse)
+					if err != nil || !ok || len(dr.Results) != 1 {
+						return
+					}
+					c.Eval(1)
+					if dr.Results[0] != ua.StatusOK {
+						c.Violation("c32:own-subscription-vanished", fmt.Sprintf("concurrent churn: session %d created subscription %d and nobody else deleted it, but its own DeleteSubscriptions is answered %v", si, id, dr.Results[0]), c32Op{Step: steps, Session: si, Op: "churn", IDs: []uint32{id}})
+						return
+					}
+				}
+			}(si)
+		}
+		wg.Wait()
+		c.Class("concurrent-churn-phases", 1)
+	}()
 	for step := 0; step < steps; step++ {
+		if step%4 == 3 && vanished(step) {
+			return
+		}
 		si := r.Intn(nsess)
 		s := ss[si]
 		op := c32Op{Step: step, Session: si}
@@ -237,6 +310,44 @@ func c32History(c *fw.Ctx, run int64) {
 				itemOwner[res.MonitoredItemID] = si
 				itemSub[res.MonitoredItemID] = sub
 				op.IDs = append(op.IDs, res.MonitoredItemID)
+			}
+		case x < 86 && r.Intn(3) == 0:
+			// one request naming an id that must be refused (a foreign item, else an unknown one) before an own item
+			op.Op = "DeleteMonitoredItems(refused id, own item)"
+			own, ok := pick(itemOwner, si, false)
+			if !ok {
+				continue
+			}
+			other, isForeign := pick(itemOwner, si, true)
+			if !isForeign {
+				other = 810000 + uint32(r.Intn(50))
+			}
+			op.IDs = []uint32{other, own}
+			c.Journal(run*10000+int64(step), op)
+			v, err := ask(s, &ua.DeleteMonitoredItemsRequest{SubscriptionID: itemSub[own], MonitoredItemIDs: []uint32{other, own}}, s.tok, 3*time.Second)
+			resp, ok := v.(*ua.DeleteMonitoredItemsResponse)
+			if err != nil || !ok || len(resp.Results) != 2 {
+				op.Result = fmt.Sprintf("%T %v", v, err)
+				break
+			}
+			op.Result = fmt.Sprint(resp.Results)
+			if resp.Results[0] == ua.StatusOK {
+				viol("c32:foreign-item-deleted:status-good", fmt.Sprintf("session %d deleted monitored item %d which is not its own: Good", si, other))
+			}
+			time.Sleep(30 * time.Millisecond)
+			if isForeign {
+				if _, there := srvItems()[other]; !there {
+					viol("c32:foreign-item-deleted:gone", fmt.Sprintf("monitored item %d of session %d is gone after a delete request of session %d that named it before an own item", other, itemOwner[other], si))
+					delete(itemOwner, other)
+					delete(itemSub, other)
+				}
+			}
+			if resp.Results[1] == ua.StatusOK {
+				if !waitFor(func() bool { _, there := srvItems()[own]; return !there }) {
+					viol("c32:deleted-item-still-there", fmt.Sprintf("monitored item %d of session %d was deleted with Good but is still on the server", own, si))
+				}
+				delete(itemOwner, own)
+				delete(itemSub, own)
 			}
 		case x < 86:
 			op.Op = "DeleteMonitoredItems"
